@@ -173,14 +173,15 @@ theorem bind_meets_spec (P : Params) (hP : FloatSane P) (cfg : Cfg) (tag : Tag) 
       exact ⟨n, ⟨⟨.node n, hn, rfl⟩, by simpa using hd⟩, he.symm⟩
   | ok v =>
     rw [hr] at hsp
-    obtain ⟨h1, h2⟩ := hsp
+    obtain ⟨h1, h2, h3⟩ := hsp
     simp only [toObs, Spec.specOK, Bool.and_eq_true, Bool.not_eq_true', List.all_eq_true, Bool.or_eq_true,
       List.any_eq_true, Spec.mustFail, Bool.or_eq_false_iff, List.any_eq_false, Spec.leavesOf, Spec.nodesOf,
-      List.mem_filterMap, Spec.items]
-    refine ⟨⟨?_, ?_⟩, ?_⟩
+      Spec.framesOf, List.mem_filterMap, Spec.items]
+    refine ⟨⟨⟨?_, ?_⟩, ?_⟩, ?_⟩
     · rintro l ⟨x, hx, hxl⟩
       cases x with
       | node n => simp at hxl
+      | frame f => simp at hxl
       | leaf l0 =>
         simp only [Option.some.injEq] at hxl
         subst hxl
@@ -194,6 +195,7 @@ theorem bind_meets_spec (P : Params) (hP : FloatSane P) (cfg : Cfg) (tag : Tag) 
     · rintro n ⟨x, hx, hxn⟩
       cases x with
       | leaf l => simp at hxn
+      | frame f => simp at hxn
       | node n0 =>
         simp only [Option.some.injEq] at hxn
         subst hxn
@@ -205,6 +207,7 @@ theorem bind_meets_spec (P : Params) (hP : FloatSane P) (cfg : Cfg) (tag : Tag) 
     · rintro l ⟨x, hx, hxl⟩
       cases x with
       | node n => simp at hxl
+      | frame f => simp at hxl
       | leaf l0 =>
         simp only [Option.some.injEq] at hxl
         subst hxl
@@ -213,7 +216,14 @@ theorem bind_meets_spec (P : Params) (hP : FloatSane P) (cfg : Cfg) (tag : Tag) 
         rcases this with h | ⟨e, he, hh⟩
         · exact Or.inl h
         · exact Or.inr ⟨e, he, hh⟩
-
+    · rintro f ⟨x, hx, hxf⟩
+      cases x with
+      | node n => simp at hxf
+      | leaf l => simp at hxf
+      | frame f0 =>
+        simp only [Option.some.injEq] at hxf
+        subst hxf
+        exact h3 f0 hx
 
 /-- **total.** Binding into a well-typed destination never panics — whatever the source holds,
     whatever the shape of the type (nil embedded pointers, pointers to slices and maps included). -/
@@ -236,7 +246,7 @@ theorem bind_depth_bound (P : Params) (hP : FloatSane P) (cfg : Cfg) (tag : Tag)
   simp only [toObs, Spec.specOK, Bool.and_eq_true, Bool.not_eq_true', Spec.mustFail, Bool.or_eq_false_iff,
     List.any_eq_false] at this
   intro n hn
-  have := this.1.2 n hn
+  have := this.1.1.2 n hn
   simpa using this
 
 /-- **errors name the field.** An error outcome is a `BindError` chain that names a field of the type
@@ -464,5 +474,17 @@ theorem conv_meets_denote (P : Params) (hP : FloatSane P) (cfg : Cfg) (p : Prim)
     (∀ v, convPrim P cfg p s = some v → (Spec.denote P cfg p s).val = some v) ∧
     (convPrim P cfg p s = none → (Spec.denote P cfg p s).refusable = true) :=
   Bind.conv_meets_denote P hP cfg p s
+
+
+/-- **untouched outside the bind.** A bind that succeeds leaves every field it does not bind under
+    this tag (unexported, untagged, `-`) exactly as it was. -/
+theorem bind_frame (P : Params) (hP : FloatSane P) (cfg : Cfg) (tag : Tag) (fs : List Fld) (ivs : List Val)
+    (src : Src) (hw : wts fs ivs = true) (hg : Spec.inGrammarFs fs = true) (hs : Spec.srcOK src = true) (v : Val)
+    (h : bind P cfg tag (.struct fs) (.struct ivs) src = .ok v) :
+    ∀ f ∈ Spec.framesOf tag fs, Spec.holdsFrame (.struct ivs) v f = true := by
+  have := bind_meets_spec P hP cfg tag fs ivs src hw hg hs
+  rw [h] at this
+  simp only [toObs, Spec.specOK, Bool.and_eq_true, List.all_eq_true] at this
+  exact this.2
 
 end Rivaas.C04
